@@ -77,7 +77,14 @@ fn ev_of(r: Option<io::Result<Result<PacketLineRef<'_>, decode::Error>>>) -> Ev 
             }
         }
         Some(Ok(Err(e))) => Ev::Decode(decode_class(&e)),
-        Some(Ok(Ok(l))) => Ev::Line(L::of(l)),
+        Some(Ok(Ok(l))) => {
+            if let Some(d) = l.as_slice() {
+                if l.as_text().map(|t| t.0) != Some(strip_nl(d)) {
+                    return Ev::Io(format!("as_text() of {:?} is {:?}: not the line minus exactly one trailing LF", B::new(d), l.as_text().map(|t| B::new(t.0))));
+                }
+            }
+            Ev::Line(L::of(l))
+        }
     }
 }
 
@@ -260,6 +267,14 @@ fn payload(len: usize, pat: u8) -> Vec<u8> {
             v
         }
         4 => vec![b'\n'; len],
+        // endings around the text terminator: "...x\r", "...\r\r", "...\r\n" (len 1: "\r", "\r", "\n")
+        6 | 7 | 8 => {
+            let tail: &[u8] = [&b"x\r"[..], b"\r\r", b"\r\n"][(pat - 6) as usize];
+            let mut v = vec![b'c'; len];
+            let n = tail.len().min(len);
+            v[len - n..].copy_from_slice(&tail[tail.len() - n..]);
+            v
+        }
         _ => enumerate::lcg_bytes(len, len as u64 + 5),
     };
     v.truncate(len);
@@ -723,7 +738,7 @@ struct StreamCase {
     truncate: usize,
 }
 
-const TOKENS: usize = 14;
+const TOKENS: usize = 17;
 fn token_bytes(t: u8) -> &'static [u8] {
     static T: std::sync::OnceLock<Vec<Vec<u8>>> = std::sync::OnceLock::new();
     &T.get_or_init(|| (0..TOKENS as u8).map(token_bytes_uncached).collect())[t as usize]
@@ -749,6 +764,9 @@ fn token_bytes_uncached(t: u8) -> Vec<u8> {
         11 => enc(&|o| encode::data_to_write(&payload(MAX_DATA, 5), o)),
         12 => enc(&|o| encode::error_to_write(&payload(MAX_DATA - 4, 0), o)),
         13 => b"000Aabcdef".to_vec(), // upper-case hex length
+        14 => enc(&|o| encode::text_to_write(b"50%\r", o)),
+        15 => enc(&|o| encode::error_to_write(b"e\r\n", o)),
+        16 => enc(&|o| encode::text_to_write(b"\r", o)),
         _ => vkit::machinery!("unknown token"),
     }
 }
@@ -834,7 +852,7 @@ struct BandCase {
     /// false: no progress handler (lines are passed through verbatim)
     handler: bool,
 }
-const BAND_TOKENS: usize = 13;
+const BAND_TOKENS: usize = 18;
 fn band_token(t: u8) -> &'static [u8] {
     static T: std::sync::OnceLock<Vec<Vec<u8>>> = std::sync::OnceLock::new();
     &T.get_or_init(|| (0..BAND_TOKENS as u8).map(band_token_uncached).collect())[t as usize]
@@ -859,6 +877,11 @@ fn band_token_uncached(t: u8) -> Vec<u8> {
         10 => b"0001".to_vec(),
         11 => band(1, &payload(MAX_DATA - 1, 5)),
         12 => band(2, &payload(MAX_DATA - 1, 2)),
+        13 => band(2, b"50%\r"),
+        14 => band(2, b"p\r\n"),
+        15 => band(3, b"e\r\r"),
+        16 => band(3, b"\r\n"),
+        17 => band(2, b"\r"),
         _ => vkit::machinery!("unknown band token"),
     }
 }
@@ -1040,14 +1063,66 @@ fn eval_band(c: &BandCase) -> Verdict {
     }
 }
 
+// ---------------------------------------------------------------------------------------------
+// sub "blocking-crate-text": the generated copy gix-packetline-blocking: text / progress / error payloads around CR and LF
+// ---------------------------------------------------------------------------------------------
+#[derive(Serialize, Deserialize, Hash, Clone, Debug)]
+struct CopyCase {
+    /// 1 text line, 4 band 2 (progress), 5 band 3 (error)
+    kind: u8,
+    text: B,
+}
+static FLUSH_ONLY_COPY: &[gix_packetline_blocking::PacketLineRef<'static>] = &[gix_packetline_blocking::PacketLineRef::Flush];
+fn eval_copy(c: &CopyCase) -> Verdict {
+    use gix_packetline_blocking as pb;
+    let d = &c.text.0[..];
+    let mut out = Vec::new();
+    if c.kind == 1 {
+        if let Err(e) = pb::TextRef(d).write_to(&mut out) {
+            return bad("refused", format!("text line {:?} refused: {e}", c.text));
+        }
+        let mut want = d.to_vec();
+        want.push(b'\n');
+        if out != ref_encode(&want) {
+            return bad("encoding", format!("text {:?} written as {:?}", c.text, B::new(&out)));
+        }
+        return match pb::decode::all_at_once(&out) {
+            Ok(line) if line.as_text().map(|t| t.0) == Some(d) => ok("copy-text"),
+            Ok(line) => bad("interpretation", format!("text {:?} written as {:?} reads back as {:?}", c.text, B::new(&out), line.as_text().map(|t| B::new(t.0)))),
+            Err(e) => bad("decode", format!("{:?} does not decode: {e}", B::new(&out))),
+        };
+    }
+    let band = if c.kind == 4 { pb::BandRef::Progress(d) } else { pb::BandRef::Error(d) };
+    if let Err(e) = band.write_to(&mut out) {
+        return bad("refused", format!("band payload {:?} refused: {e}", c.text));
+    }
+    out.extend_from_slice(b"0000");
+    let mut it = pb::StreamingPeekableIter::new(&out[..], FLUSH_ONLY_COPY, false);
+    let mut seen: Vec<(bool, Vec<u8>)> = Vec::new();
+    let res = {
+        let mut rd = it.as_read_with_sidebands(|is_err: bool, t: &[u8]| {
+            seen.push((is_err, t.to_vec()));
+            pb::read::ProgressAction::Continue
+        });
+        let mut sink = Vec::new();
+        rd.read_to_end(&mut sink).map(|_| sink)
+    };
+    let want = vec![(c.kind == 5, strip_nl(d).to_vec())];
+    match res {
+        Ok(data) if data.is_empty() && seen == want => ok(if c.kind == 4 { "copy-progress" } else { "copy-error" }),
+        Ok(data) => bad("sideband-progress", format!("payload {:?}: handler saw {:?}, expected {:?} ({} data bytes)", c.text, seen.iter().map(|(e, t)| (*e, B::new(t))).collect::<Vec<_>>(), want.iter().map(|(e, t)| (*e, B::new(t))).collect::<Vec<_>>(), data.len())),
+        Err(e) => bad("sideband-end", format!("payload {:?}: {e}", c.text)),
+    }
+}
+
 pub fn run(run: &'static Run) {
     run.rule(
-        "line: 6 kinds (data,text,ERR,band1..3) x payload lengths {0..6, 65505..65520} x 6 byte patterns (incl. 'ERR ' start, trailing LF, band-byte start) through encode::*_to_write, *Ref::write_to, \
+        "line: 6 kinds (data,text,ERR,band1..3) x payload lengths {0..6, 65505..65520} x 9 byte patterns (incl. 'ERR ' start, trailing LF, band-byte start, endings x CR, CR CR, CR LF) through encode::*_to_write, *Ref::write_to, \
          decode::streaming (7 cuts), all_at_once, read_line, peek_line+read_line; writer: binary/text x lengths around 1x and 2x the limit; \
          prefix: ALL 65536 lower-case + all upper-case four-hex-digit prefixes + non-hex bytes at each position, x first payload byte {1,2,3,'a'} x {full payload+flush, one byte short, nothing} through streaming, all_at_once, \
          read_line, peek_line (with and without delimiters) and WithSidebands with/without progress handler; \
-         stream: all sequences <=3 of 14 line tokens (incl. 65516-byte lines, malformed 0003/0004/000g, upper-case hex) x all read/peek/reset scripts up to the bound x delimiters {none,flush,all} x fail_on_err x chunkings (all 1- and 2-cut splits of short streams, fixed sizes otherwise) x truncations, against a reference model; \
-         sideband: all sequences of 13 band tokens (empty payloads, LF-only, max-size, non-band, delimiter) x Read buffer sizes/BufRead/read_line_to_string x interrupt position. \
+         stream: all sequences <=3 of 17 line tokens (incl. 65516-byte lines, malformed 0003/0004/000g, upper-case hex, text/ERR lines ending in CR / CR LF; as_text() of every line read is checked) x all read/peek/reset scripts up to the bound x delimiters {none,flush,all} x fail_on_err x chunkings (all 1- and 2-cut splits of short streams, fixed sizes otherwise) x truncations, against a reference model; \
+         blocking-crate-text: gix-packetline-blocking (generated copy) text lines and band-2/3 payloads = all strings <=3 over {x, CR, LF, 50%} through TextRef/BandRef::write_to, as_text() and WithSidebands; sideband: all sequences of 18 band tokens (empty payloads, LF-only, progress/error ending in CR, CR CR, CR LF, max-size, non-band, delimiter) x Read buffer sizes/BufRead/read_line_to_string x interrupt position. \
          non-trivial = at least one line was accepted and compared byte-for-byte (or, for prefixes, the prefix class was decided by every decoder)",
     );
     if run.quick() {
@@ -1070,7 +1145,7 @@ pub fn run(run: &'static Run) {
         |emit| {
             for &len in &lens {
                 for kind in 0..6u8 {
-                    for pattern in 0..6u8 {
+                    for pattern in 0..9u8 {
                         emit(LineCase { kind, len, pattern });
                     }
                 }
@@ -1090,6 +1165,18 @@ pub fn run(run: &'static Run) {
             }
         },
         eval_writer,
+    );
+
+    // ---- the generated copy of the crate ----
+    run.sub(
+        "blocking-crate-text",
+        |emit| {
+            let toks: [&[u8]; 4] = [b"x", b"\r", b"\n", b"50%"];
+            for kind in [1u8, 4, 5] {
+                enumerate::strings(&toks, 1, 3, |t| emit(CopyCase { kind, text: B::new(t) }));
+            }
+        },
+        eval_copy,
     );
 
     // ---- prefix ----
@@ -1220,11 +1307,11 @@ pub fn run(run: &'static Run) {
             let mut seqs: Vec<Vec<u8>> = Vec::new();
             enumerate::seqs(&toks, 0, max_band, |s| seqs.push(s.to_vec()));
             for tokens in &seqs {
-                let long = tokens.iter().filter(|&&t| t >= 11).count();
+                let long = tokens.iter().filter(|&&t| t == 11 || t == 12).count();
                 if long > 2 || (long > 0 && tokens.len() > 3) {
                     continue;
                 }
-                let nprog = tokens.iter().filter(|&&t| matches!(t, 2 | 3 | 4 | 6 | 7 | 8 | 12)).count() as u8;
+                let nprog = tokens.iter().filter(|&&t| matches!(t, 2 | 3 | 4 | 6 | 7 | 8 | 12..=17)).count() as u8;
                 for handler in [true, false] {
                     for mode in 0..4u8 {
                         let sizes: &[usize] = if mode != 0 {
